@@ -182,6 +182,12 @@ impl RetryManager {
     fn add_pending_appointments(&mut self, tower_id: TowerId, locators: HashSet<Locator>) {
         if let std::collections::hash_map::Entry::Vacant(e) = self.retriers.entry(tower_id) {
             log::debug!("Creating a new entry for tower {tower_id}");
+            // A previous retrier may have given up leaving appointments behind. A new one starts from everything
+            // that is pending for the tower, otherwise the tower would end up reachable with data never sent.
+            let mut locators = locators;
+            if let Some(tower) = self.wt_client.lock().unwrap().towers.get(&tower_id) {
+                locators.extend(tower.pending_appointments.iter().cloned());
+            }
             e.insert(Arc::new(Retrier::new(
                 self.wt_client.clone(),
                 tower_id,
